@@ -836,6 +836,7 @@ def analyse(rep: Report) -> None:
     rep.rule('R05.5', 'URL/query text is escaped exactly once on its way into XML', floor=20)
     rep.rule('R05.6', 'S entries are listed only with a duration (S@d is rendered without a guard)', floor=2)
     rep.rule('R05.7', 'functions declared to return int return no float-valued expression', floor=8)
+    rep.rule('R05.8', 'the formatters behind isoDateTime / isoDuration keep the xs:dateTime / xs:duration lexical form (rules of C19)', floor=1)
     global _INDEX
     from ..index import Index
     _INDEX = Index(rep.repo, 'dashlive/mpeg/dash')
@@ -862,6 +863,8 @@ def analyse(rep: Report) -> None:
     r05_5(rep, ts, strength)
     r05_6(rep)
     r05_7(rep)
+    from .c19 import lift_into
+    lift_into(rep, 'R05.8', ('R19.1', 'R19.3', 'R19.4', 'R19.5'), 'date-time and duration formatters')
     rep.assumptions = [
         'Flask autoescapes templates named .html .htm .xml .xhtml .svg and nothing else',
         'field table: which expressions are numeric / fixed vocabulary / file-derived / free text '
